@@ -177,7 +177,7 @@ theorem stepUndo_ineligible (cfg : Cfg) (ops : Ops Tree Plan Backup H) (w : Worl
         simp [hf, h1'] at he
         exact h2 he
 
-theorem stepUndo_ok (cfg : Cfg) (ops : Ops Tree Plan Backup H) (w : World Tree Plan Backup H) (t : Target H) (i : EId H)
+theorem stepUndo_ok (cfg : Cfg) (hRI : cfg.revertIdOfRoot = false) (ops : Ops Tree Plan Backup H) (w : World Tree Plan Backup H) (t : Target H) (i : EId H)
     (e : Entry H) (p : Plan) (b : Backup) (t' : Tree)
     (hr : resolve w.entries true t = some i) (hf : findEntry w.entries i = some e) (h1 : e.revertOf = none)
     (h2 : hasRevertOf w.entries i = false) (hp : lookup w.plans i = some p) (hb : lookup w.backups i = some b)
@@ -185,7 +185,8 @@ theorem stepUndo_ok (cfg : Cfg) (ops : Ops Tree Plan Backup H) (w : World Tree P
     stepUndo cfg ops w t =
       ({ w with tree := t', entries := w.entries ++ [{ id := .revert i w.clock, revertOf := some i }] }, .ok) := by
   unfold stepUndo
-  simp [hr, hf, h1, h2, hp, hb, hv, addEntry, hd]
+  have hd' : hasId w.entries (revertId cfg i w.clock) = false := by simpa [revertId, hRI] using hd
+  simp [hr, hf, h1, h2, hp, hb, hv, addEntry, hd, revertId, hRI]
 
 theorem stepRedo_ineligible (cfg : Cfg) (hR : cfg.redoOnce = true) (ops : Ops Tree Plan Backup H) (w : World Tree Plan Backup H) (t : Target H) (i : EId H)
     (hr : resolve w.entries false t = some i) (he : redoEligible w.entries i = false) :
@@ -311,7 +312,7 @@ theorem inv_rename (cfg : Cfg) (hE : cfg.earlyDupCheck = true) (ops : Ops Tree P
             exact hasId_append _ _ _ (hI.backupsIds i hi)
         · exact status_rename w.entries s hI.status _ w.tree t' hG'.1 hnew
 
-theorem inv_undo (cfg : Cfg) (ops : Ops Tree Plan Backup H) (hRT : RoundTrip ops) (w : World Tree Plan Backup H) (s : Spec Tree H)
+theorem inv_undo (cfg : Cfg) (hRI : cfg.revertIdOfRoot = false) (ops : Ops Tree Plan Backup H) (hRT : RoundTrip ops) (w : World Tree Plan Backup H) (s : Spec Tree H)
     (t : Target H) (hI : Inv ops w s) (hG : G10 ops w s (.undo t) = true) :
     Conforms cfg ops w s (.undo t) ∧ Inv ops (step cfg ops w (.undo t)).1 (specStep cfg ops s w (.undo t)) := by
   have hstep : step cfg ops w (.undo t) = stepUndo cfg ops w t := rfl
@@ -362,7 +363,7 @@ theorem inv_undo (cfg : Cfg) (ops : Ops Tree Plan Backup H) (hRT : RoundTrip ops
               have hr' : hasRevertOf w.entries i = true := by
                 simp [hasRevertOf]; exact ⟨e', he', this⟩
               rw [hnorev] at hr'; cases hr'
-          have heq := stepUndo_ok cfg ops w t i e p b o'.pre hr hf h1 hnorev hp hb hv hd
+          have heq := stepUndo_ok cfg hRI ops w t i e p b o'.pre hr hf h1 hnorev hp hb hv hd
           have hs : specStep cfg ops s w (.undo t) = setApplied s i.root false := by
             unfold specStep; simp [hstep, heq, hr]
           rw [hs]
@@ -503,12 +504,12 @@ theorem inv_redo (cfg : Cfg) (hE : cfg.earlyDupCheck = true) (hR : cfg.redoOnce 
     · exact rejected (stepRedo_ineligible cfg hR ops w t i hr (by simpa using hel))
 
 /-- every guarded command conforms and keeps the invariant -/
-theorem inv_step (cfg : Cfg) (hE : cfg.earlyDupCheck = true) (hR : cfg.redoOnce = true) (ops : Ops Tree Plan Backup H) (hRT : RoundTrip ops) (w : World Tree Plan Backup H) (s : Spec Tree H)
+theorem inv_step (cfg : Cfg) (hE : cfg.earlyDupCheck = true) (hR : cfg.redoOnce = true) (hRI : cfg.revertIdOfRoot = false) (ops : Ops Tree Plan Backup H) (hRT : RoundTrip ops) (w : World Tree Plan Backup H) (s : Spec Tree H)
     (c : Cmd H) (hI : Inv ops w s) (hG : G10 ops w s c = true) :
     Conforms cfg ops w s c ∧ Inv ops (step cfg ops w c).1 (specStep cfg ops s w c) := by
   cases c with
   | rename se re => exact inv_rename cfg hE ops w s se re hI hG
-  | undo t => exact inv_undo cfg ops hRT w s t hI hG
+  | undo t => exact inv_undo cfg hRI ops hRT w s t hI hG
   | redo t => exact inv_redo cfg hE hR ops w s t hI hG
   | tick =>
     refine ⟨by unfold Conforms; simp [step], ?_⟩
@@ -517,7 +518,7 @@ theorem inv_step (cfg : Cfg) (hE : cfg.earlyDupCheck = true) (hR : cfg.redoOnce 
     exact { stored := hI.stored, roots := hI.roots, revForm := hI.revForm, revOnly := hI.revOnly,
             backupsIds := hI.backupsIds, status := hI.status }
 
-theorem guarded_conform (cfg : Cfg) (hE : cfg.earlyDupCheck = true) (hR : cfg.redoOnce = true) (ops : Ops Tree Plan Backup H) (hRT : RoundTrip ops) (cs : List (Cmd H)) :
+theorem guarded_conform (cfg : Cfg) (hE : cfg.earlyDupCheck = true) (hR : cfg.redoOnce = true) (hRI : cfg.revertIdOfRoot = false) (ops : Ops Tree Plan Backup H) (hRT : RoundTrip ops) (cs : List (Cmd H)) :
     ∀ (w : World Tree Plan Backup H) (s : Spec Tree H), Inv ops w s → Guarded cfg ops w s cs = true → AllConform cfg ops w s cs := by
   induction cs with
   | nil => intro w s _ _; trivial
@@ -525,7 +526,7 @@ theorem guarded_conform (cfg : Cfg) (hE : cfg.earlyDupCheck = true) (hR : cfg.re
     intro w s hI hG
     unfold Guarded at hG
     simp only [Bool.and_eq_true] at hG
-    obtain ⟨h1, h2⟩ := inv_step cfg hE hR ops hRT w s c hI hG.1
+    obtain ⟨h1, h2⟩ := inv_step cfg hE hR hRI ops hRT w s c hI hG.1
     exact ⟨h1, ih _ _ h2 hG.2⟩
 
 end
